@@ -237,7 +237,7 @@ fn clip(s: &str, n: usize) -> String {
 }
 
 const ADVANCING: [&str; 3] = ["next", "NEXT", "  n  "];
-const NONADV: [&str; 13] = ["print reg", "print flags", "print mem 0:3", "PRINT MEM 0 -> 0x1f", "", "foo", "nn", "print", "next please", "print mem 1048575 : 1", "print mem 0xFFFF0:16", "print mem 1048575 -> 1048575", "print mem :1048575"];
+const NONADV: [&str; 13] = ["print reg", "print flags", "print mem 0:3", "PRINT MEM 0 -> 0x1f", "", "foo", "nn", "print", "next please", "print mem 1048575 : 1", "print mem 0xFFFF0:16", "print mem 1048575 -> 1048575", "print mem 1048560 : 15"];
 const TERMINATING: [&str; 4] = ["q", "quit", "QUIT", " q "];
 
 #[derive(Clone, Debug)]
